@@ -29,6 +29,7 @@ func getController(name string) (*Controller, error) {
 		return controller, nil
 	}
 
+	verifPoint("getctl.beforeLock")
 	controllersLock.Lock()
 	defer controllersLock.Unlock()
 
@@ -72,6 +73,7 @@ func getController(name string) (*Controller, error) {
 
 // InjectDatabase injects an already running database into the system.
 func InjectDatabase(name string, storageInt storage.Interface) (*Controller, error) {
+	verifPoint("inject.beforeLock")
 	controllersLock.Lock()
 	defer controllersLock.Unlock()
 
